@@ -21,8 +21,7 @@ class ConclusionSelector(LogicalOperator, ABC):
     Tracks whether certain conclusion-combinations were already produced so
     they are not duplicated across truth branches.
     """
-    concluded_before: Dict[bool, SeenSet] = field(default_factory=lambda: {True: SeenSet(), False: SeenSet()},
-                                                  init=False)
+    concluded_before: Dict[typing.Any, SeenSet] = field(default_factory=dict, init=False)
 
     def update_conclusion(self, output: Dict[int, HashedValue], conclusions: typing.Set[Conclusion]) -> None:
         if not conclusions:
@@ -32,18 +31,22 @@ class ConclusionSelector(LogicalOperator, ABC):
             vars_ = conclusion._unique_variables_.filter(lambda v: not isinstance(v.value, Literal))
             required_vars.update(vars_)
         required_output = {k: v for k, v in output.items() if k in required_vars}
-        if not self.concluded_before[not self._is_false_].check(required_output):
+        # What was concluded is remembered per set of conclusions: a binding of the variables of one conclusion says
+        # nothing about another conclusion, that may be over more variables, having been drawn.
+        key = (not self._is_false_, frozenset(conclusions))
+        concluded_before = self.concluded_before.setdefault(key, SeenSet())
+        if not concluded_before.check(required_output):
             self._conclusion_.update(conclusions)
-            self.concluded_before[not self._is_false_].add(required_output)
+            concluded_before.add(required_output)
 
     def _reset_only_my_cache_(self) -> None:
         super()._reset_only_my_cache_()
         # What was concluded belongs to one evaluation: a later evaluation has to conclude it again.
-        self.concluded_before = {True: SeenSet(), False: SeenSet()}
+        self.concluded_before = {}
 
     def _copy_expression_(self, postfix: str) -> SymbolicExpression:
         cp = super()._copy_expression_(postfix)
-        cp.concluded_before = {True: SeenSet(), False: SeenSet()}
+        cp.concluded_before = {}
         return cp
 
     @property
